@@ -21,4 +21,12 @@ def check(spec, ctx):
 
 
 def parts():
-    return [Part("compositions", check, strategy=c01.spec_st, strategy_thorough=c01.spec_deep, budget={"quick": 1600, "thorough": 100000}, fuzz={"thorough": 6000})]
+    from . import c13
+
+    return [
+        Part("compositions", check, strategy=c01.spec_st, strategy_thorough=c01.spec_deep, budget={"quick": 1600, "thorough": 100000}, fuzz={"thorough": 6000}),
+        # "the time for which the driver checks availability on a link equals the time that is actually requested":
+        # also for calendar delays (relativedelta), where chained shifts are not additive (check shared with C13)
+        Part("calendar_delays", c13.check_calendar, strategy=c13.calendar_case(), budget={"quick": 200, "thorough": 6000}, shrink_budget=150),
+        Part("large_ratio_enum", check, enumerate=c01.enum_large_ratio, exhaustive=True),
+    ]
